@@ -1,4 +1,5 @@
-(* Model of QuicConnectionProtocol (src/aioquic/asyncio/protocol.py): the bookkeeping of waiters,
+(* Model of QuicConnectionProtocol (src/aioquic/asyncio/protocol.py, with the two C19 fixes applied: API calls on a
+   terminated protocol fail/finish at once, empty data is not fed to a reader): the bookkeeping of waiters,
    timer handle, deferred transmit and stream readers, as a state machine whose steps are the loop
    callbacks (datagram_received, _handle_timer, the call_soon'ed transmit) and the API calls.
 
@@ -23,6 +24,7 @@ Definition X_INVALID_STATE : Z := 1.   (* asyncio.InvalidStateError: future reso
 Definition X_FEED_AFTER_EOF : Z := 2.  (* AssertionError 'feed_data after feed_eof' *)
 Definition X_TIMER_NONE : Z := 3.      (* TypeError: max(None, float) in _handle_timer *)
 Definition X_ALREADY_AWAITING : Z := 4. (* AssertionError 'already awaiting connected' *)
+Definition X_CONNECTION_ERROR : Z := 5. (* not an escaping exception: the awaited API call finishes at once with ConnectionError *)
 Definition X_HANDLER : Z := 10.        (* 10 + k: exception kind k raised by a server callback *)
 
 (* ---------- events of the QUIC connection ------------------------------------------------------ *)
@@ -156,17 +158,22 @@ Fixpoint fail_all (ps : list (Z * nat)) (f : list fstate) : option Z * list fsta
 Definition feed_eof_all (l : list reader) : list reader :=
   map (fun r => mkReader (rd_sid r) (rd_buf r) true) l.
 
-(* quic_event_received for StreamDataReceived *)
+(* quic_event_received for StreamDataReceived:
+     reader = get or _create_stream (a reader created on a closed protocol is fed EOF at once);
+     if event.data: reader.feed_data(event.data)   -- asserts not eof
+     if event.end_stream: reader.feed_eof() *)
 Definition on_stream (s : st) (sid : Z) (data : list Z) (fin : bool) : option Z * st :=
   let '(r, s1) :=
     match rd_get sid (readers s) with
     | Some r => (r, s)
-    | None => let r := mkReader sid [] false in (r, with_readers s (rd_set r (readers s)))   (* _create_stream + stream_handler *)
+    | None => let r := mkReader sid [] (closed s) in (r, with_readers s (rd_set r (readers s)))   (* _create_stream + stream_handler *)
     end in
-  if rd_eof r then (Some X_FEED_AFTER_EOF, s1)            (* reader.feed_data: assert not self._eof *)
-  else
-    let r' := mkReader sid (rd_buf r ++ data) (if fin then true else false) in
-    (None, with_readers s1 (rd_set r' (readers s1))).
+  match data with
+  | [] => (None, with_readers s1 (rd_set (mkReader sid (rd_buf r) (rd_eof r || fin)) (readers s1)))
+  | _ :: _ =>
+      if rd_eof r then (Some X_FEED_AFTER_EOF, s1)            (* reader.feed_data: assert not self._eof *)
+      else (None, with_readers s1 (rd_set (mkReader sid (rd_buf r ++ data) fin) (readers s1)))
+  end.
 
 Definition handle_event (e : event) (s : st) : option Z * st :=
   match e with
@@ -312,6 +319,7 @@ Definition step (s : st) (o : op) : option Z * list Z * st :=
   | OTransmit gt evs_tx => (None, [], transmit s gt evs_tx)
   | OClose gt evs_tx => (None, [], transmit s gt evs_tx)
   | OPing uid gt evs_tx =>
+      if closed s then (Some X_CONNECTION_ERROR, [], s) else     (* raise ConnectionError before anything else *)
       let i := length (futs s) in
       let s1 := with_pings (with_futs s (futs s ++ [FPending])) (ping_set uid i (pings s)) in
       (None, [], transmit s1 gt evs_tx)
@@ -320,6 +328,7 @@ Definition step (s : st) (o : op) : option Z * list Z * st :=
       | Some _ => (Some X_ALREADY_AWAITING, [], s)
       | None =>
           if connected s then (None, [1], s)              (* returns at once *)
+          else if closed s then (Some X_CONNECTION_ERROR, [], s)
           else (None, [0], with_cwait (with_futs s (futs s ++ [FPending])) (Some (length (futs s))))
       end
   | OWrite sid => (None, [], transmit_soon (set_dirty s))
@@ -333,7 +342,7 @@ Definition step (s : st) (o : op) : option Z * list Z * st :=
          what the application now holds for this stream id *)
       let s1 := mkSt (connected s) (cwait s) (pings s) (closed s) (futs s) (timer s) (timer_at s) (ltimers s)
                      (ttask s) (soon s) (readers s) (filter (fun x => negb (x =? sid)) (wclosing s)) (evq s) (dirty s) in
-      (None, [], with_readers s1 (rd_set (mkReader sid [] false) (readers s1)))
+      (None, [], with_readers s1 (rd_set (mkReader sid [] (closed s)) (readers s1)))   (* feed_eof() if _closed is set *)
   | OTransmitSoon => (None, [], transmit_soon s)
   end.
 
